@@ -31,8 +31,19 @@ fn max_diff(a: &Profile, b: &Profile) -> f64 {
 }
 
 fn run_cli(cli_path: &str, args: &[String], stdin: Option<&str>, flat: &Flat) -> Result<Printed, (String, String)> {
-    let r = cli::run(cli_path, args, stdin, Duration::from_secs(120));
+    // (for the general call sites a watchdog is inconclusive whatever the child was doing)
+    run_cli_within(cli_path, args, stdin, flat, 120).map_err(|(sig, msg)| if sig == "cpu-bound-when-the-watchdog-fired" { ("watchdog".to_string(), msg) } else { (sig, msg) })
+}
+
+/// As [run_cli] with a wall-clock watchdog of `limit_s` seconds. A watchdog that fires is
+/// inconclusive ("watchdog") unless the child had by then burned at least `limit_s / 2` seconds of
+/// CPU itself ("cpu-bound-when-the-watchdog-fired": the caller decides what that means)
+fn run_cli_within(cli_path: &str, args: &[String], stdin: Option<&str>, flat: &Flat, limit_s: u64) -> Result<Printed, (String, String)> {
+    let r = cli::run(cli_path, args, stdin, Duration::from_secs(limit_s));
     if r.timed_out {
+        if r.cpu_s_at_timeout >= limit_s as f64 / 2.0 {
+            return Err(("cpu-bound-when-the-watchdog-fired".into(), format!("the program had used {:.0} s of CPU when it was stopped after {} s", r.cpu_s_at_timeout, limit_s)));
+        }
         return Err(("watchdog".into(), "cli watchdog".into()));
     }
     if r.status != Some(0) {
@@ -87,8 +98,34 @@ pub fn run(ctx: &mut Ctx) {
                     (t.to_string(), t, r.to_string(), r.parse::<f64>().unwrap())
                 };
                 let (dname, spec) = if unlimited { ("vanilla", ParamSpec::Vanilla) } else { (dname, spec) };
+                // -t left out: the documented default budget of 1000 iterations, with no threshold, a
+                // zero one, or one the solve only reaches after the default budget is used up
+                let omit_t = !unlimited && rng.chance(0.12) && flat.nodes.len() <= 150;
+                let (iters, r_arg, max_reg) = if omit_t {
+                    match rng.below(3) {
+                        0 => (1000u64, "0".to_string(), 0.0),
+                        _ => {
+                            let probe = Cfg { method: SolveMethod::Full, iters: 1000, max_reg: 0.0, threads: 1, params: spec };
+                            match solve::run(&prep, &probe, None) {
+                                Outcome::Ok(o) if o.total_bound > 0.0 && o.total_bound.is_finite() => {
+                                    let r = o.total_bound * 0.6;
+                                    (1000u64, format!("{:?}", r), r)
+                                }
+                                _ => (1000u64, "0".to_string(), 0.0),
+                            }
+                        }
+                    }
+                } else {
+                    (iters, r_arg, max_reg)
+                };
+                if omit_t {
+                    ctx.count("runs-with-the-iteration-budget-left-at-its-default", 1);
+                }
                 let threads = if mode == 0 { 1usize } else { *rng.pick(&[2usize, 4, 0]) };
-                let mut args: Vec<String> = vec!["-m".into(), "full".into(), "-t".into(), t_arg.clone(), "-p".into(), threads.to_string(), "-i".into(), jpath.clone()];
+                let mut args: Vec<String> = vec!["-m".into(), "full".into(), "-p".into(), threads.to_string(), "-i".into(), jpath.clone()];
+                if !omit_t {
+                    args.extend(["-t".to_string(), t_arg.clone()]);
+                }
                 if !(use_default_d && !unlimited) {
                     args.extend(["-d".to_string(), dname.to_string()]);
                 }
@@ -96,9 +133,20 @@ pub fn run(ctx: &mut Ctx) {
                     args.extend(["-r".to_string(), r_arg.clone()]);
                 }
                 ctx.mark(idx, &args.join(" "));
-                let printed = match run_cli(&cli_path, &args, None, flat) {
+                // with the budget at its default the library needs milliseconds on these games
+                // (<= 150 nodes, 1000 iterations): a program still computing after 40 s, at least 20 s
+                // of them on the CPU, is not running the documented 1000 iterations
+                let printed = match if omit_t { run_cli_within(&cli_path, &args, None, flat, 40) } else { run_cli(&cli_path, &args, None, flat) } {
                     Ok(p) => p,
                     Err((sig, _)) if sig == "watchdog" => {
+                        ctx.inconclusive("cli-watchdog");
+                        return;
+                    }
+                    Err((sig, msg)) if sig == "cpu-bound-when-the-watchdog-fired" => {
+                        if omit_t {
+                            ctx.violation(idx, "C16:default-budget:does-not-return", &format!("cfr {}: {} although the default budget is 1000 iterations, which the library runs in milliseconds on this game ({})", args.join(" "), msg, desc), detail(&args, json!({})));
+                            return;
+                        }
                         ctx.inconclusive("cli-watchdog");
                         return;
                     }
@@ -460,7 +508,7 @@ pub fn run(ctx: &mut Ctx) {
         let _ = gen::METHODS;
     });
     ctx.finish(crate::report::extra(
-        "cases (five kinds, rotating): (a) `-m full` with every -d preset (and the default), -t in {1,2,3,10,50,200,0=unlimited with a reachable -r}, -r, -p 1: printed strategies must equal Game::solve(Full, T, r, 1, documented preset) called by the harness on the same tree within 1e-9 (bit-for-bit agreement is counted, not demanded: two separately compiled binaries may differ in the last place of powf), (a') the same with -p {2,4,0}; a larger difference is inconclusive only if the library trace passed within 1e-9 of a regret-matching discontinuity; (b)+(c) the same game and options through nine routes {stdin auto, stdin explicit, file explicit, .txt auto, -o file, Gambit file, Gambit explicit, Gambit .dat auto, Gambit stdin auto}: parsed results identical to `-i game.json` (bitwise where both encodings are exact), -o leaves stdout empty and replaces whatever the output file held before (absent / longer / shorter previous content); (c') a Gambit encoding using payoffs on interior nodes, shared outcomes, outcomes attached by number only (payoffs stated at another node), repeated chance-action labels, non-zero constant sums and unnamed/mixed infoset names must print the strategies Game::solve returns on the game the file describes (harness's own semantic tree), within 1e-9 or the tolerance measured from the library trace; (d) signatures of sampled methods on constructed games (a random 3-4 x 3-4 matrix game, or a chance move over two of them; -d vanilla -t 20): -m full repeatable, -m sampled equals -m full bit for bit on the chance-free game, and where the full solution is properly mixed -m sampled (with chance) and -m external never print exactly the -m full result in two repetitions; (e) clip, with and without -r {0.05,0.5,5}: with S the library solution and S' its truncation (by the C18 specification) the printed profile must be one of them, S' if its O1 regret is lower, S if higher or equal (within 1e-9 x scale: don't-care). distinct = hash(file, options/route); non-trivial = game has a decision infoset.",
+        "cases (five kinds, rotating): (a) `-m full` with every -d preset (and the default), -t in {1,2,3,10,50,200,0=unlimited with a reachable -r, left out = the documented default 1000, then with -r absent, 0, or 0.6 x the bound reached at 1000}, -r, -p 1: printed strategies must equal Game::solve(Full, T, r, 1, documented preset) called by the harness on the same tree within 1e-9 (bit-for-bit agreement is counted, not demanded: two separately compiled binaries may differ in the last place of powf), (a') the same with -p {2,4,0}; a larger difference is inconclusive only if the library trace passed within 1e-9 of a regret-matching discontinuity; (b)+(c) the same game and options through nine routes {stdin auto, stdin explicit, file explicit, .txt auto, -o file, Gambit file, Gambit explicit, Gambit .dat auto, Gambit stdin auto}: parsed results identical to `-i game.json` (bitwise where both encodings are exact), -o leaves stdout empty and replaces whatever the output file held before (absent / longer / shorter previous content); (c') a Gambit encoding using payoffs on interior nodes, shared outcomes, outcomes attached by number only (payoffs stated at another node), repeated chance-action labels, non-zero constant sums and unnamed/mixed infoset names must print the strategies Game::solve returns on the game the file describes (harness's own semantic tree), within 1e-9 or the tolerance measured from the library trace; (d) signatures of sampled methods on constructed games (a random 3-4 x 3-4 matrix game, or a chance move over two of them; -d vanilla -t 20): -m full repeatable, -m sampled equals -m full bit for bit on the chance-free game, and where the full solution is properly mixed -m sampled (with chance) and -m external never print exactly the -m full result in two repetitions; (e) clip, with and without -r {0.05,0.5,5}: with S the library solution and S' its truncation (by the C18 specification) the printed profile must be one of them, S' if its O1 regret is lower, S if higher or equal (within 1e-9 x scale: don't-care). distinct = hash(file, options/route); non-trivial = game has a decision infoset.",
         &["the harness library build has the hooks compiled in but inactive; agreement with the hook-free binary within 1e-9 on every -m full run is itself evidence that the hooks do not change what is computed", "Gambit rational probabilities are only exact for power-of-two denominators; other files are compared within rounding"],
     ));
 }
